@@ -14,6 +14,7 @@ import (
 func init() {
 	vrt.Register("C07_truthiness", Truthiness)
 	vrt.Register("C07_chain", Chain)
+	vrt.Register("C07_failed_condition", FailedCondition)
 }
 
 type T struct{ N int }
@@ -225,5 +226,41 @@ func Chain() {
 			vrt.Assert(rec.calls[i] == wantCalls[i], "conditions are evaluated in order, once each")
 		}
 	}
+	vrt.Cover("done")
+}
+
+// a condition whose evaluation fails on an unknown identifier (tolerated, counts as
+// falsy) leaves the scope untouched: later conditions still test the caller's values
+func FailedCondition() {
+	outer := vrt.Bool()
+	ctx := plush.NewContext()
+	ctx.Set("flag", outer)
+	ctx.Set("blk", blk)
+	defs := "<% let check = fn(flag) { return missing(flag) } %><% let check2 = fn(q) { let flag = q return missing } %>"
+	conds := []string{"check(!flag)", "check2(!flag)", "missing.Field", "check(flag)"}
+	c := conds[vrt.Choice(len(conds))]
+	want := "C"
+	if outer {
+		want = "B"
+	}
+	var in string
+	switch vrt.Choice(5) {
+	case 0:
+		in = "<%= if (" + c + ") { %>A<% } else if (flag) { %>B<% } else { %>C<% } %>"
+	case 1:
+		in = "<%= if (!" + c + ") { %><%= if (flag) { %>B<% } else { %>C<% } %><% } %>"
+	case 2:
+		in = "<%= if (" + c + " || flag) { %>B<% } else { %>C<% } %>"
+	case 3:
+		in = "<%= for (i) in [1] { %><%= if (" + c + ") { %>A<% } else if (flag) { %>B<% } else { %>C<% } %><% } %>"
+	default:
+		in = "<%= blk() { %><%= if (" + c + ") { %>A<% } %><% } %><%= if (flag) { %>B<% } else { %>C<% } %>"
+	}
+	in = defs + in
+	vrt.Note("input", in)
+	got, err := plush.Render(in, ctx)
+	vrt.Note("got", got)
+	vrt.Assert(err == nil, "a tolerated unknown identifier in a condition renders")
+	vrt.Assert(got == want, "after a condition that failed on an unknown identifier, later conditions see the caller's values")
 	vrt.Cover("done")
 }
